@@ -48,8 +48,8 @@ class MCurve(object):
         x3 = (lam * lam - x1 - x2) % p
         return (x3, (lam * (x1 - x3) - y1) % p)
 
-    def mul(self, k, P):
-        """k*P for any integer k (k is reduced mod n: P has order n or 1)"""
+    def mul_affine(self, k, P):
+        """k*P, LSB-first double-and-add in affine coordinates (the definition; slow)"""
         k %= self.n
         R = INF
         A = P
@@ -59,6 +59,64 @@ class MCurve(object):
             A = self.add(A, A)
             k >>= 1
         return R
+
+    def mul(self, k, P):
+        """k*P for any integer k (k is reduced mod n: P has order n or 1).  MSB-first
+        double-and-add in Jacobian coordinates, one field inversion at the end; checked against
+        mul_affine in the KATs."""
+        k %= self.n
+        if P is INF or k == 0:
+            return INF
+        p, a = self.p, self.a
+        x1, y1 = P
+        X, Y, Z = x1, y1, 1
+        inf = False
+        for bit in bin(k)[3:]:
+            # double
+            if not inf:
+                if Y == 0:
+                    inf = True
+                else:
+                    YY = Y * Y % p
+                    S = 4 * X * YY % p
+                    M = (3 * X * X + a * pow(Z, 4, p)) % p
+                    X3 = (M * M - 2 * S) % p
+                    Y3 = (M * (S - X3) - 8 * YY * YY) % p
+                    Z = 2 * Y * Z % p
+                    X, Y = X3, Y3
+            if bit == "1":
+                if inf:
+                    X, Y, Z, inf = x1, y1, 1, False
+                else:
+                    # mixed addition (X,Y,Z) + (x1,y1)
+                    ZZ = Z * Z % p
+                    U2 = x1 * ZZ % p
+                    S2 = y1 * ZZ * Z % p
+                    H = (U2 - X) % p
+                    r = (S2 - Y) % p
+                    if H == 0:
+                        if r == 0:
+                            # doubling of the affine point
+                            Q = self.add(P, P)
+                            if Q is INF:
+                                inf = True
+                            else:
+                                X, Y, Z = Q[0], Q[1], 1
+                        else:
+                            inf = True
+                    else:
+                        HH = H * H % p
+                        HHH = H * HH % p
+                        V = X * HH % p
+                        X3 = (r * r - HHH - 2 * V) % p
+                        Y3 = (r * (V - X3) - Y * HHH) % p
+                        Z = Z * H % p
+                        X, Y = X3, Y3
+        if inf or Z == 0:
+            return INF
+        zi = pow(Z, -1, p)
+        zi2 = zi * zi % p
+        return (X * zi2 % p, Y * zi2 * zi % p)
 
     def mul_unreduced(self, k, P):
         """k*P by the definition (no reduction of k); negative k = |k| * (-P)"""
